@@ -1082,6 +1082,272 @@ def brainseg(ck):
                pipeline_joint_beat_voxels=int(n_joint_pipe))
 
 
+# ------------------------------------------------------------------ object life-cycle: parameters replaced on a live object
+def density_oracles(ck, g, x, tag, rep, weighted=True):
+    """Every likelihood the object reports must be the Gaussian density of its CURRENT means / precisions
+    (both implementations, SciPy's multivariate normal, the model expression with log det of the current
+    precision), whatever happened to the object before."""
+    import scipy.stats as st
+    from scipy.linalg import eigvalsh
+    k, dim = g.k, g.dim
+    l1 = np.asarray(g.unweighted_likelihood(x))
+    l2 = np.asarray(g.unweighted_likelihood_(x))
+    L2PI = float(np.log(2 * np.pi))
+    ref = np.zeros_like(l1)
+    expr = np.zeros_like(l1)
+    for c in range(k):
+        P = g.precisions[c] if g.prec_type == "full" else np.diag(g.precisions[c])
+        ref[:, c] = st.multivariate_normal(mean=g.means[c], cov=np.linalg.inv(P)).pdf(x)
+        logdet = float(np.log(eigvalsh(P)).sum())
+        dx = x - g.means[c]
+        expr[:, c] = np.exp(((-L2PI * dim + logdet) - np.einsum("ni,ij,nj->n", dx, P, dx)) / 2)
+    for nm, lv in (("unweighted_likelihood", l1), ("unweighted_likelihood_", l2)):
+        if not np.allclose(lv, ref, rtol=1e-8, atol=1e-300) or not np.allclose(lv, expr, rtol=1e-10, atol=1e-300):
+            i, c = np.unravel_index(int(np.argmax(np.abs(lv - ref) / (ref + 1e-300))), ref.shape)
+            ck.fail("lifecycle/%s/%s-is-not-the-density-of-the-current-parameters" % (tag, nm),
+                    "%s[%d,%d] = %r but the Gaussian density of the object's current mean/precision is %r" % (nm, i, c, float(lv[i, c]), float(ref[i, c])),
+                    dict(rep, sample=x[i].tolist(), component=int(c), means=np.asarray(g.means).tolist(), precisions=np.asarray(g.precisions).tolist()))
+    if not np.allclose(l1, l2, rtol=1e-10, atol=1e-300):
+        ck.fail("lifecycle/%s/two-implementations-differ" % tag, "unweighted_likelihood and unweighted_likelihood_ differ on the same object", rep)
+    if weighted:
+        like = np.asarray(g.likelihood(x))
+        if not np.allclose(like, ref * g.weights, rtol=1e-8, atol=1e-300):
+            ck.fail("lifecycle/%s/likelihood-is-not-weights-times-density" % tag, "likelihood(x) is not weights * density of the current parameters", rep)
+        mix = np.asarray(g.mixture_likelihood(x))
+        if not np.allclose(mix, (ref * g.weights).sum(1), rtol=1e-8, atol=1e-300):
+            ck.fail("lifecycle/%s/mixture_likelihood" % tag, "mixture_likelihood(x) is not the mixture density of the current parameters", rep)
+        z = g.map_label(x)
+        want = np.argmax(ref * g.weights, 1)
+        amb = np.sort(ref * g.weights, 1)
+        clear = (amb[:, -1] - (amb[:, -2] if k > 1 else 0)) > 1e-9 * amb[:, -1]
+        if np.any((z != want) & clear):
+            ck.fail("lifecycle/%s/map_label-is-not-argmax-of-current-density" % tag, "map_label differs from the arg-max of weights * current density", rep)
+
+
+def rand_params(rng, ptype, k, dim):
+    g = rand_gmm(rng, ptype, k, dim)
+    return g.means.copy(), g.precisions.copy() / 2.0, g.weights.copy()
+
+
+def bgmm_prior_density(b):
+    import scipy.stats as st
+    ref = float(st.dirichlet(b.prior_weights).pdf(b.weights)) if b.k > 1 else 1.0
+    for c in range(b.k):
+        ref *= float(st.multivariate_normal(b.prior_means[c], np.linalg.inv(b.precisions[c] * b.prior_shrinkage[c])).pdf(b.means[c]))
+        ref *= float(st.wishart(df=b.prior_dof[c], scale=b.prior_scale[c]).pdf(b.precisions[c]))
+    return ref
+
+
+def relabelled(b, pj):
+    from nipy.algorithms.clustering import bgmm
+    b2 = bgmm.BGMM(b.k, b.dim, np.asarray(b.means)[pj].copy(), np.asarray(b.precisions)[pj].copy(), np.asarray(b.weights)[pj].copy())
+    b2.set_priors(b.prior_means, b.prior_weights, b.prior_scale, b.prior_dof, b.prior_shrinkage)
+    return b2
+
+
+def lifecycle(ck):
+    from nipy.algorithms.clustering.gmm import GMM
+    from nipy.algorithms.clustering import bgmm
+    from nipy.algorithms.clustering.imm import IMM
+    rng = ck.rng("lifecycle")
+    N = ck.n(24, 160)
+    for ci in range(N):
+        dim = 1 + ci % 3
+        k = 2 + (ci // 3) % 3
+        n = 12 + int(rng.integers(0, 10))
+        cent = rng.integers(-5, 6, (k, dim)).astype(float)
+        zt = np.concatenate([np.arange(k), rng.integers(0, k, n - k)])
+        x = cent[zt] + rng.normal(size=(n, dim))
+        xe = rng.integers(-4, 5, (5, dim)).astype(float)
+        np.random.seed(int(rng.integers(0, 2 ** 31)))          # the samplers use numpy's global generator
+        for cls in ("GMM-full", "GMM-diag", "BGMM", "VBGMM"):
+            ptype = "diag" if cls == "GMM-diag" else "full"
+            m0, p0, w0 = rand_params(rng, ptype, k, dim)
+            m1, p1, w1 = rand_params(rng, ptype, k, dim)
+            if cls.startswith("GMM"):
+                g = GMM(k, dim, ptype, m0.copy(), p0.copy(), w0.copy())
+            elif cls == "BGMM":
+                g = bgmm.BGMM(k, dim, m0.copy(), p0.copy(), w0.copy())
+            else:
+                g = bgmm.VBGMM(k, dim, m0.copy(), p0.copy(), w0.copy())
+            rep = {"class": cls, "k": k, "dim": dim, "x": x.tolist(), "eval_points": xe.tolist(), "case": ci,
+                   "initial": {"means": m0.tolist(), "precisions": p0.tolist(), "weights": w0.tolist()},
+                   "plugged": {"means": m1.tolist(), "precisions": p1.tolist(), "weights": w1.tolist()}}
+            weighted = cls != "VBGMM"     # VBGMM.likelihood is the variational E-step, not weights * density
+            if not cls.startswith("GMM"):
+                g.guess_priors(x)         # plugin() checks the shapes of the priors
+            ck.count(("life", cls, ci), bucket="lifecycle:%s" % cls)
+            density_oracles(ck, g, xe, "%s/fresh" % cls, dict(rep, sequence=["construct"]), weighted)
+            g.plugin(m1.copy(), p1.copy(), w1.copy())
+            density_oracles(ck, g, xe, "%s/after-plugin" % cls, dict(rep, sequence=["construct", "plugin"]), weighted)
+            if cls.startswith("GMM"):
+                g.guess_regularizing(x)
+                g._Mstep(x, g.likelihood(x) + 1e-30)
+                density_oracles(ck, g, xe, "%s/after-update" % cls, dict(rep, sequence=["construct", "plugin", "guess_regularizing", "_Mstep"]), weighted)
+                g.plugin(m0.copy(), p0.copy(), w0.copy())
+                density_oracles(ck, g, xe, "%s/after-update-then-plugin" % cls, dict(rep, sequence=["construct", "plugin", "_Mstep", "plugin"]), weighted)
+                continue
+            if cls == "VBGMM":
+                continue
+            # BGMM: the documented work-flow  guess_priors; initialize; sample(mem=1); plugin(cent, prec, w)
+            b = g
+            b.initialize(x)
+            density_oracles(ck, b, xe, "BGMM/after-initialize", dict(rep, sequence=["guess_priors", "initialize"]))
+            w, cen, prec, pz = b.sample(x, niter=4, mem=1)
+            density_oracles(ck, b, xe, "BGMM/after-sample", dict(rep, sequence=["guess_priors", "initialize", "sample"]))
+            for stage, seq in (("after-sample", ["guess_priors", "initialize", "sample"]),):
+                got, ref = float(b.probability_under_prior()), bgmm_prior_density(b)
+                if abs(got - ref) > 1e-7 * abs(ref):
+                    ck.fail("lifecycle/BGMM/%s/probability_under_prior" % stage, "probability_under_prior = %r, prior density of the current parameters = %r" % (got, ref), dict(rep, sequence=seq))
+            b.plugin(cen.copy(), prec.copy(), w.copy())
+            seq = ["guess_priors", "initialize", "sample(mem=1)", "plugin(cent, prec, w)"]
+            density_oracles(ck, b, xe, "BGMM/after-sample-then-plugin", dict(rep, sequence=seq))
+            got, ref = float(b.probability_under_prior()), bgmm_prior_density(b)
+            if abs(got - ref) > 1e-7 * abs(ref):
+                ck.fail("lifecycle/BGMM/after-sample-then-plugin/probability_under_prior",
+                        "after sample + plugin, probability_under_prior = %r but the prior density of the current parameters is %r "
+                        "(ratio %r)" % (got, ref, got / ref), dict(rep, sequence=seq))
+            z = pz[:, -1]
+            got = float(b.conditional_posterior_proba(x, z))
+            ref = float(relabelled(b, np.arange(k)).conditional_posterior_proba(x, z))
+            if abs(got - ref) > 1e-7 * abs(ref):
+                ck.fail("lifecycle/BGMM/after-sample-then-plugin/conditional_posterior_proba",
+                        "after sample + plugin, conditional_posterior_proba = %r but a freshly built model with the same parameters and priors gives %r" % (got, ref),
+                        dict(rep, sequence=seq, z=z.tolist()))
+        # IMM: after sampling, on whatever components it holds
+        im = IMM(.5, dim)
+        im.set_priors(x)
+        im.set_constant_densities(prior_dens=0.01)
+        im.sample(x, niter=3, init=True)
+        ck.count(("life", "IMM", ci), bucket="lifecycle:IMM")
+        if im.k > 0:
+            density_oracles(ck, im, xe, "IMM/after-sample", {"class": "IMM", "dim": dim, "x": x.tolist(), "case": ci, "sequence": ["set_priors", "sample"]}, weighted=False)
+        # ---- relabelling: conditional posterior under a permutation = conditional posterior of the relabelled model
+        kk = 3 + ci % 2
+        m0, p0, w0 = rand_params(rng, "full", kk, dim)
+        w0 = (np.arange(1, kk + 1) + rng.random(kk)) / 10.0
+        w0 = w0 / w0.sum()
+        b = bgmm.BGMM(kk, dim, m0.copy(), p0.copy(), w0.copy())
+        pm = m0 + rng.integers(-1, 2, (kk, dim))
+        b.set_priors(pm, np.arange(1, kk + 1) / 2.0, np.array([rand_spd_int(rng, dim) / 4.0 + np.eye(dim) for _ in range(kk)]),
+                     dim + 1.0 + np.arange(kk), 0.5 + np.arange(kk) / 4.0)
+        nn = 4 * kk + 3
+        zz = np.concatenate([np.repeat(np.arange(kk), np.arange(1, kk + 1)), rng.integers(0, kk, nn - kk * (kk + 1) // 2)]) \
+            if nn >= kk * (kk + 1) // 2 else rng.integers(0, kk, nn)
+        xx = m0[zz] + rng.normal(size=(len(zz), dim))
+        perm = bgmm.generate_perm(kk)
+        pp = np.asarray(b.conditional_posterior_proba(xx, zz, perm))
+        base = float(b.conditional_posterior_proba(xx, zz))
+        ck.count(("relabel", kk, dim, ci), bucket="conditional-posterior-relabelling:k%d" % kk)
+        repp = {"k": kk, "dim": dim, "means": m0.tolist(), "precisions": p0.tolist(), "weights": w0.tolist(), "x": xx.tolist(), "z": zz.tolist(),
+                "prior_means": pm.tolist(), "case": ci}
+        for j, pj in enumerate(perm):
+            ref = float(relabelled(b, pj).conditional_posterior_proba(xx, zz))
+            inv_is_self = bool(np.array_equal(np.argsort(pj), pj))
+            if not (abs(pp[j] - ref) <= 1e-8 * abs(ref) + 1e-300):
+                ck.fail("conditional-posterior/relabelling-inconsistent/%s" % ("involution" if inv_is_self else "non-involutive-permutation"),
+                        "conditional_posterior_proba(x, z, perm)[%s] = %r but the model relabelled by %s has conditional posterior %r" % (pj.tolist(), float(pp[j]), pj.tolist(), ref),
+                        dict(repp, perm=pj.tolist()))
+            if np.array_equal(pj, np.arange(kk)) and abs(pp[j] - base) > 1e-10 * abs(base):
+                ck.fail("conditional-posterior/identity-permutation-differs", "perm = identity differs from perm = None", repp)
+    ck.section("lifecycle", cases=N)
+
+
+# ------------------------------------------------------------------ value magnitudes: units of the data
+def scale_class(c):
+    c = np.abs(np.asarray(c, dtype=float))
+    if np.all(c == c[0]):
+        return "uniform-small" if c[0] < 1 else "uniform-large"
+    return "per-axis-mixed"
+
+
+def magnitudes(ck):
+    from nipy.algorithms.clustering.gmm import GMM
+    from nipy.algorithms.clustering import bgmm
+    rng = ck.rng("magnitudes")
+    terms, meta = [], []
+    N = ck.n(18, 120)
+    for ci in range(N):
+        dim = 1 + ci % 3
+        k = 2 + (ci // 3) % 2
+        ptype = "diag" if ci % 2 else "full"
+        n = 30
+        zt = np.concatenate([np.arange(k), rng.integers(0, k, n - k)])
+        cent = rng.integers(-5, 6, (k, dim)).astype(float)
+        x = cent[zt] + np.round(rng.normal(size=(n, dim)) * 8) / 8.0
+        zi = zt.copy()
+        zi[::7] = (zi[::7] + 1) % k
+        l0 = np.zeros((n, k))
+        l0[np.arange(n), zi] = 1
+
+        def fit(data, niter):
+            g = GMM(k, dim, ptype)
+            g.guess_regularizing(data)
+            pri = (g.prior_means.copy(), g.prior_scale.copy())
+            g.update(data, l0.copy())
+            for _ in range(niter):
+                g.update(data, g._Estep(data))
+            like = g.likelihood(data)
+            return g, like / like.sum(1, keepdims=True), pri
+        scales = [np.full(dim, 2.0 ** -40), np.full(dim, 1e-9), np.full(dim, 2.0 ** -12), np.full(dim, 2.0 ** 40), np.full(dim, 1e6)]
+        if dim > 1:
+            scales += [np.array([1e-9] + [1.0] * (dim - 1)), np.array([2.0 ** -30] + [2.0 ** 20] * (dim - 1)),
+                       np.array([1e3] + [1e-4] * (dim - 1))]
+        for niter, wf in ((0, "mstep"), (3, "em")):
+            g1, r1, pri1 = fit(x, niter)
+            for c in scales:
+                cls = scale_class(c)
+                ck.count(("mag", ptype, wf, ci, c.tobytes()), bucket="magnitudes:%s:%s:%s" % (ptype, wf, cls))
+                try:
+                    g2, r2, pri2 = fit(x * c, niter)
+                except Exception as e:      # e.g. SVD failure on non-finite covariances
+                    ck.fail("scale-equivariance/%s/%s/%s" % (ptype, wf, cls),
+                            "GMM(%s) on data rescaled by %s raised %s: %s (the unscaled fit succeeds)" % (ptype, c.tolist(), type(e).__name__, e),
+                            {"prec_type": ptype, "k": k, "dim": dim, "workflow": wf, "em_iterations": niter, "scale": c.tolist(), "x": x.tolist(),
+                             "initial_labels": zi.tolist()})
+                    continue
+                ep = g1.precisions / (c ** 2 if ptype == "diag" else np.outer(c, c))
+                with np.errstate(all="ignore"):
+                    e_mean = float(np.max(np.abs(g2.means - g1.means * c) / np.abs(c)))
+                    e_prec = float(np.max(np.abs(g2.precisions / ep - 1)))
+                    e_w = float(np.max(np.abs(g2.weights - g1.weights)))
+                    e_resp = float(np.max(np.abs(r1 - r2)))
+                errs = {"mean": e_mean, "precision_rel": e_prec, "weight": e_w, "membership": e_resp}
+                same_map = bool(np.array_equal(g1.map_label(x), g2.map_label(x * c)))
+                if not (max(e_mean, e_prec, e_w, e_resp) < 1e-6) or not same_map:      # (nan -> failure)
+                    ck.fail("scale-equivariance/%s/%s/%s" % (ptype, wf, cls),
+                            "GMM(%s) fitted on data rescaled by %s is not the rescaled fit: errors %s, same MAP labels: %s" % (ptype, c.tolist(), errs, same_map),
+                            {"prec_type": ptype, "k": k, "dim": dim, "workflow": wf, "em_iterations": niter, "scale": c.tolist(), "x": x.tolist(),
+                             "initial_labels": zi.tolist(), "errors": errs})
+                if wf == "mstep":
+                    # guess_regularizing itself, against the Coq model (no variance floor), on the rescaled data
+                    xs = x * c
+                    KF = float(np.exp(2.0 / dim * np.log(k)))
+                    pm, ps = pri2
+                    for j in range(dim):
+                        sj = ps[0][j, j] if ptype == "full" else ps[0][j]
+                        terms.append("qrel %s (gr_mean_x %s) %s && qrel %s (gr_scale_x %s %s) %s" % (
+                            cq(F(1, 10 ** 9)), cql(fl(xs[:, j])), cq(float(pm[0][j])), cq(F(1, 10 ** 9)), cq(KF), cql(fl(xs[:, j])), cq(float(sj))))
+                        meta.append(("guess_regularizing", {"prec_type": ptype, "axis": j, "scale": c.tolist(), "x_axis": xs[:, j].tolist(),
+                                                            "prior_mean": float(pm[0][j]), "prior_scale": float(sj)}))
+                    # the Bayesian variant derives its prior the same way
+                    if ptype == "full":
+                        b1, b2 = bgmm.BGMM(k, dim), bgmm.BGMM(k, dim)
+                        b1.guess_priors(x)
+                        b2.guess_priors(xs)
+                        if not (np.allclose(b2.prior_means, b1.prior_means * c, rtol=1e-9, atol=0) and
+                                np.allclose(b2.prior_scale, b1.prior_scale / np.outer(c, c), rtol=1e-9, atol=0)):
+                            ck.fail("scale-equivariance/BGMM.guess_priors/%s" % cls, "BGMM.guess_priors on rescaled data is not the rescaled prior", {"scale": c.tolist(), "x": x.tolist()})
+    if ck.build is not None and ck.build.ok:
+        res = ck.coq_bools(HDR, terms, shard=120, name="magn")
+        ck.cov["traces_validated_against_impl"] += len(res)
+        for ok, (kind, rep) in zip(res, meta):
+            if not ok:
+                ck.fail("magnitudes-model-vs-impl/%s" % kind, "Coq model of guess_regularizing (prior mean = column mean, prior scale = KF / column variance) disagrees "
+                        "with the implementation on data of this magnitude", rep)
+    ck.section("magnitudes", cases=N, model_terms=len(terms))
+
+
 def run(ck):
     ck.cov["rule"] = (
         "mrf: random grids 1..3^3 (thorough: up to 4), K 1..3, masks, point orders, U in {Potts, symmetric int, asymmetric int}, "
@@ -1098,7 +1364,7 @@ def run(ck):
     ck.coq_build()
     ck.overlay()
     import time
-    for fn in (mrf, posteriors, gauss, bgmm_helpers, brainseg):
+    for fn in (mrf, posteriors, gauss, bgmm_helpers, brainseg, lifecycle, magnitudes):
         t0 = time.time()
         fn(ck)
         ck.section(fn.__name__, wall_s=round(time.time() - t0, 1))
